@@ -456,7 +456,8 @@ func marshalTo(read *thrift.BinaryProtocol, write *thrift.BinaryProtocol, from *
 	switch t := to.Type(); t {
 	case thrift.STRUCT:
 		if from == to {
-			return nil
+			// identical descriptors: nothing to cut, copy the struct as it is
+			goto skip_val
 		}
 		var req *thrift.RequiresBitmap
 		if !opts.NotCheckRequireNess {
